@@ -204,7 +204,9 @@ def run_real(config, obs, H, F, years=None, **params):
             else:
                 out = deb.apply_on_window(o, h, f)
         except Exception as ex:  # noqa: BLE001
-            return "error", type(ex).__name__, cap.draws
+            # the draws made before the exception as ONE flat array, like the "ok" path (callers do `[float(x) for x in u]`: a
+            # list of arrays made them crash exactly when the code under test raised after drawing, e.g. CDFt with SSR)
+            return "error", type(ex).__name__, (np.concatenate([np.ravel(d) for d in cap.draws]) if cap.draws else np.array([]))
     u = np.concatenate(cap.draws) if cap.draws else np.array([])
     return "ok", np.asarray(out, dtype=float), u
 
